@@ -68,6 +68,14 @@ class Gen:
     # ------------------------------------------------------------ words
     def near(self, w):
         r = self.rng.random()
+        if len(w) >= 4 and self.rng.random() < 0.06:
+            # three stars around two pieces of the word that share a character (or, half of the time, do not): `*ab*bc*` is not `abc`
+            j = self.rng.randint(1, len(w) - 2)
+            i = self.rng.randint(0, j - 1)
+            k = self.rng.randint(j + 1, len(w) - 1)
+            a, b = w[i:j + 1], (w[j:k + 1] if self.rng.random() < 0.6 else w[j + 1:k + 1])
+            if a and b:
+                return '*' + a + '*' + b + '*'
         if r < 0.45 or len(w) < 2:
             return w
         if r < 0.55:
